@@ -1,4 +1,4 @@
-\* thorough fault facet: 3 tries, 3 submissions, one more block than the quick facet
+\* thorough fault facet: as the quick one with 3 tries
 CONSTANTS
   Sig = {"s1", "s2"}
   Start = 50
@@ -7,7 +7,7 @@ CONSTANTS
   Buffer = 1
   UOff = 3
   MaxT = 103
-  MaxH = 5
+  MaxH = 4
   MaxSub = 3
   MaxMem = 2
   RelCap = 10
